@@ -9,7 +9,9 @@ os.makedirs(d, exist_ok=True)
 shutil.copy('%s/%s.patch.diff' % (root, sid), os.path.join(d, 'patch.diff'))
 import re
 _src = open('%s/%s/demo.py' % (root, sid)).read()
-_src = re.sub(r"^([ \t]*)assert [^\n]*__file__[^\n]*?((\\\n)[^\n]*)*$", r"\1pass  # (worktree-path assertion removed)", _src, flags=re.M)
+sys.path.insert(0, os.path.dirname(os.path.abspath(__file__)))
+import stripassert
+_src = stripassert.strip(_src)
 open(os.path.join(d, 'demo.py'), 'w').write(_src)
 s = json.load(open(summ))
 meta = dict(id=name, breaks_property=prop, needs_to_manifest=needs,
